@@ -83,6 +83,10 @@ def chains():
         for f in firsts:
             for g in follow:
                 out.append(f + [["rename", folder, new]] + g)
+    # rename cycles (two files swap names through a temporary name): the engine has to park one of them under a temporary
+    # name of its own on the other side
+    out.append([["rename", "a", "t"], ["rename", "h", "a"], ["rename", "t", "h"]])
+    out.append([["rename", "a", "t"], ["rename", "d/b", "a"], ["rename", "t", "d/b"]])
     return out
 
 
